@@ -18,7 +18,7 @@ for P in "${PATCHES[@]}"; do
     if ! bash scripts/baseline.sh "$S/repo" >/dev/null 2>&1; then echo "SELFTEST $ID $P: baseline tests FAIL with this mutant (not a realistic mutant)"; rc=1; rm -rf "$S"; continue; fi
   fi
   mkdir -p "$S/out"
-  REPO="$S/repo" VERIF_BUILD="$S/build" VERIF_OUT="$S/out" VERIF_TMP="$S/tmp" bash -c '. scripts/env.sh; bash scripts/build.sh 2>"$VERIF_OUT/build.log" && "$B/ddpmc" '"$ID"' quick' > "$S/out/log" 2>&1
+  REPO="$S/repo" VERIF_BUILD="$S/build" VERIF_OUT="$S/out" VERIF_TMP="$S/tmp" bash -c '. scripts/env.sh; ENVS=$(bash scripts/build.sh 2>"$VERIF_OUT/build.log") && eval "$ENVS" && "$VERIF_VDIR/ddpmc" '"$ID"' quick' > "$S/out/log" 2>&1
   e=$?
   if [ $e = 1 ] && grep -q "^VIOLATION property=$ID" "$S/out/log"; then
     echo "SELFTEST $ID $P: detected ($(grep -c '^VIOLATION' "$S/out/log") violation lines; first: $(grep -A1 '^VIOLATION' "$S/out/log" | sed -n 2p | cut -c1-150))"
